@@ -1,6 +1,7 @@
 CONSTANTS
-  Workers <- MCNoWorkers
-  NTs <- MCNTs
+  Workers <- Workers_wany
+  NTs <- NTs_wany
+  ThreadNames <- Threads_wany
   WyFix = FALSE
   AllowSpurious = FALSE
 INIT Init_wany
